@@ -216,6 +216,7 @@ impl Scenario for ReplyScenario {
                 }
             }
         }
+        crate::verif::props::gen_out::sprinkle_splits(rng, &mut script);
         SoutCase {
             cfg,
             ctrl: if rng.chance(3, 4) {
